@@ -362,5 +362,9 @@ PROPS["C09"]["explanation"] += " (F3c for images) every non-failing path that ch
 PROPS["C10"]["rules"] = PROPS["C10"]["rules"] + [rules_attr.rule_attr_count_kept]
 PROPS["C10"]["explanation"] += " (ATTRCOUNT) the record count of an attribute Vdata reaches NC_new_attr in hdf_read_attrs (scaled by the field order, never replaced by it)."
 
+PROPS["C10"]["rules"] = PROPS["C10"]["rules"] + [rules_idioms.rule_nc_name_equal]
+PROPS["C10"]["explanation"] += " (NCNAMEEQ) every look-up by name in the SD layer compares the length of the counted name as well as its bytes (no prefix matches between attribute, dimension or variable names). (GRATTR) changing an image's attribute also sets gr_modified, without which GRend skips the images."
+PROPS["C15"]["rules"] = PROPS["C15"]["rules"] + [rules_idioms.rule_nc_name_equal]
+
 NOT_APPLICABLE = {}
 
